@@ -98,7 +98,108 @@ def gen_coincide(rng, cid):
                 hyp=rng.random() < 0.5, bs=rng.randint(1, len(refs) + 1), seed=rng.randrange(1000), nout=units, affine=False, coincide=True)
 
 
+def _fwd_twopool(layers, seq_matrix):
+    """exact forward pass (Fractions) of the restricted layer set of gen_twopool; returns the list of activations"""
+    from fractions import Fraction as Fr
+    t = [[Fr(v[0], v[1]) for v in row] for row in seq_matrix]           # C x L
+    acts = [t]
+    for l in layers:
+        if l["k"] == "conv":
+            W, b = l["W"], l["b"]; K = len(W[0][0]); Lout = len(t[0]) - K + 1
+            t = [[Fr(b[o]) + sum(Fr(W[o][c][k]) * t[c][q + k] for c in range(len(t)) for k in range(K)) for q in range(Lout)]
+                 for o in range(len(W))]
+        elif l["k"] == "act":
+            sl = Fr(l["slope"][0], l["slope"][1])
+            f = (lambda z: max(z, Fr(0))) if l["g"] == "relu" else (lambda z: min(max(z, Fr(0)), Fr(6))) if l["g"] == "relu6" else (
+                lambda z: z if z > 0 else sl * z)
+            t = [[f(z) for z in row] for row in t]
+        elif l["k"] == "maxpool":
+            t = [[max(row[2 * q], row[2 * q + 1]) for q in range(len(row) // 2)] for row in t]
+        else:
+            break
+        acts.append(t)
+    return acts
+
+
+def _twopool_hard(layers, x, refs, A):
+    """does some reference put the case into the situation described in gen_twopool?  (second pooling stage: a window position p
+    where example and reference coincide, p is the example's maximum but not the reference's (or the other way round); the
+    convolution feeding p cancels first-stage deltas of both signs)"""
+    ax = _fwd_twopool(layers, onehot_matrix(x, A))
+    for rm in refs:
+        ar = _fwd_twopool(layers, rm)
+        p1x, p1r = ax[3], ar[3]                  # outputs of the first pooling stage (input of the second convolution)
+        in2x, in2r = ax[5], ar[5]                # inputs of the second pooling stage
+        W = layers[3]["W"]; K = len(W[0][0])
+        for ch in range(len(in2x)):
+            for q in range(len(in2x[ch]) // 2):
+                for p, o in ((2 * q, 2 * q + 1), (2 * q + 1, 2 * q)):
+                    if in2x[ch][p] != in2r[ch][p]:
+                        continue
+                    xs = in2x[ch][p] >= in2x[ch][o] and (p < o or in2x[ch][p] > in2x[ch][o])       # p is the example's arg max
+                    rs = in2r[ch][p] >= in2r[ch][o] and (p < o or in2r[ch][p] > in2r[ch][o])
+                    if xs == rs:
+                        continue
+                    terms = [W[ch][c][k] * (p1x[c][p + k] - p1r[c][p + k]) for c in range(len(p1x)) for k in range(K)]
+                    if any(v > 0 for v in terms) and any(v < 0 for v in terms):
+                        return True
+    return False
+
+
+def gen_twopool(rng, cid):
+    for _ in range(400):
+        c = _gen_twopool(rng, cid)
+        if _twopool_hard(c["layers"], c["x"], c["refs"], c["A"]):
+            c["hard"] = True
+            return c
+    return c
+
+
+def _gen_twopool(rng, cid):
+    """Two max-pooling stages with references that coincide with the example over most receptive fields: pooling windows then
+    hold inputs with delta_in = 0 next to ones that differ, and example and reference attain their maxima at different
+    positions.  A rule that falls back to the ordinary gradient there makes the two halves of the batch carry different
+    multipliers; the earlier pooling stage must not mix them (completeness breaks otherwise)."""
+    A = rng.choice([2, 4]); L = rng.randint(11, 16)
+    layers = []
+    C, Lc = A, L
+    for stage in range(2):
+        K = rng.choice([1, 1, 2, 3]) if stage == 0 else rng.choice([1, 1, 2])
+        stride = 1
+        Lout = (Lc - K) // stride + 1
+        Cout = rng.randint(1, 3)
+        layers.append(dict(k="conv", W=rand_w(rng, (Cout, C, K)), b=rand_w(rng, (Cout,), -1, 1), stride=stride, dil=1, pad=0, ws=[1, 1]))
+        C, Lc = Cout, Lout
+        g, cls = rng.choice([("leaky", "LeakyReLU"), ("leaky", "PReLU"), ("relu", "ReLU"), ("relu", "ReLU"), ("relu6", "ReLU6")])
+        layers.append(dict(k="act", g=g, cls=cls, slope=rng.choice([[1, 2], [3, 4]]) if g == "leaky" else [0, 1], lam=0))
+        layers.append(dict(k="maxpool", size=2, pad=0, ceil=0)); Lc = (Lc - 2) // 2 + 1
+    layers.append(dict(k="flatten"))
+    n_in = C * Lc
+    for j in range(rng.randint(1, 2)):
+        units = rng.randint(1, 2)
+        layers.append(dict(k="linear", W=rand_w(rng, (units, n_in)), b=rand_w(rng, (units,), -1, 1), ws=[1, 1]))
+        n_in = units
+    for l in layers:
+        l.setdefault("W", []); l.setdefault("b", []); l.setdefault("ws", [1, 1]); l.setdefault("stride", 1)
+        l.setdefault("dil", 1); l.setdefault("pad", 0); l.setdefault("size", 1); l.setdefault("g", ""); l.setdefault("cls", "")
+        l.setdefault("slope", [0, 1]); l.setdefault("lam", 0)
+    x = [rng.randrange(A) for _ in range(L)]
+    refs = []
+    for _ in range(rng.randint(1, 3)):
+        r = list(x)
+        for _ in range(rng.randint(1, 4)):
+            r[rng.randrange(L)] = rng.randrange(A)
+        if rng.random() < 0.3:
+            rng.shuffle(r)
+        refs.append(onehot_matrix(r, A))
+    return dict(id=cid, A=A, x=x, refs=refs, refmode="tensor", nref=len(refs), target=rng.randrange(n_in), layers=layers,
+                hyp=rng.random() < 0.5, bs=rng.randint(1, len(refs) + 1), seed=rng.randrange(1000), nout=n_in, nest=rng.randrange(4),
+                affine=False)
+
+
 def gen_case(rng, cid, allow_maxpool=True):
+    if allow_maxpool and cid % 6 == 1:
+        return gen_twopool(rng, cid)
     if rng.random() < 0.15:
         return gen_coincide(rng, cid)
     A = rng.choice([2, 3, 4, 4])
